@@ -16,7 +16,8 @@
                                           state is None exactly until the last period with observations)
      update                               update_all  (one_step_back with N = r = None in every period)
      smooth                               smooth_all  (right fold = the reversed loop)
-     Cache.calculate_likelihood etc.      likelihood, contributions
+     Cache.calculate_likelihood etc.      likelihood, contributions (as repaired by fixes/C03_1.patch:
+                                          the contributions carry the variance scale)
    Not modelled: the GLS estimate of an unknown initial condition (unit-root models, Xi is None for
    stationary models), the `check_singularity` option, multiple variants. *)
 From Coq Require Import List Bool Arith.
@@ -224,13 +225,17 @@ Definition likelihood (rescale_variance : bool) (fs : list fper) : lik :=
                          (lg_of M sum_pe_Fi_pe')) in
   mkLik sum_num_obs sum_log_det_F' sum_pe_Fi_pe' var_scale nll.
 
-(* Cache.calculate_likelihood_contributions *)
-Definition contribution (x : fper) : lg M :=
+(* Cache.calculate_likelihood_contributions; the variance scale (1 unless rescale_variance) enters
+   each contribution the way it enters the total *)
+Definition contribution (var_scale : sc) (x : fper) : lg M :=
   if Nat.eqb (num_obs x) 0 then lg_of M (s0 M)
   else lg_scale M shalf
-         (lg_add M (lg_add M (log_det_F x) (lg_of M (pe_Fi_pe x)))
-                   (lg_scale M (sofnat M (num_obs x)) (lg_log2pi M))).
-Definition contributions (fs : list fper) : list (lg M) := map contribution fs.
+         (lg_add M
+            (lg_add M
+               (lg_add M (log_det_F x) (lg_scale M (sofnat M (num_obs x)) (lg_log M var_scale)))
+               (lg_of M (sdiv M (pe_Fi_pe x) var_scale)))
+            (lg_scale M (sofnat M (num_obs x)) (lg_log2pi M))).
+Definition contributions (var_scale : sc) (fs : list fper) : list (lg M) := map (contribution var_scale) fs.
 
 (* ---- the system of a Simultaneous model, selection of the observed rows, output mapping ---- *)
 
@@ -316,7 +321,7 @@ Definition kalman_filter (deviation rescale_variance : bool) (s : solution)
   let ups := update_all fs in
   let sms := smooth_all fs in
   let lk := likelihood rescale_variance fs in
-  mkKout (map2 (out_period s' (l_var_scale lk)) ups sms) lk (contributions fs)
+  mkKout (map2 (out_period s' (l_var_scale lk)) ups sms) lk (contributions (l_var_scale lk) fs)
          (map det_Fi fs) (map pe_Fi_pe fs).
 
 (* _initialize_med: (I - Ta)^-1 Ka for a model without unit roots *)
@@ -392,8 +397,8 @@ Arguments l_sum_pe_Fi_pe {M} l.
 Arguments l_var_scale {M} l.
 Arguments l_nll {M} l.
 Arguments likelihood {M n nw} rescale_variance fs.
-Arguments contribution {M n nw} x.
-Arguments contributions {M n nw} fs.
+Arguments contribution {M n nw} var_scale x.
+Arguments contributions {M n nw} var_scale fs.
 Arguments mkSolution {M n nw nu nyf nxi} so_Ta so_Pa so_Ka so_Za so_H so_D so_Ua so_curr_xi.
 Arguments so_Ta {M n nw nu nyf nxi} s.
 Arguments so_Pa {M n nw nu nyf nxi} s.
